@@ -52,6 +52,17 @@ _SEED = 0
 _TIER = "quick"
 
 
+def _raised_in_library(e):
+    """True if the innermost frame of the traceback is cola's own code"""
+    import cola
+    root = os.path.dirname(os.path.abspath(cola.__file__)) + os.sep
+    tb, last = e.__traceback__, None
+    while tb is not None:
+        last = tb.tb_frame.f_code.co_filename
+        tb = tb.tb_next
+    return bool(last) and os.path.abspath(last).startswith(root)
+
+
 _COV_NEW = []
 
 
@@ -97,8 +108,16 @@ def _run_one(case):
             "key": f"{_MOD.PROPERTY}|timeout|{getattr(_MOD, 'case_signature', digest)(case)}",
             "what": f"case did not finish within {CASE_TIMEOUT_S}s", "detail": {}}]}
     except Exception as e:  # a harness bug must never look like a pass
-        res = {"transitions": 0, "outcome": "harness-error", "violations": [], "harness_error":
-               "".join(traceback.format_exception(type(e), e, e.__traceback__))[-3000:]}
+        tb = "".join(traceback.format_exception(type(e), e, e.__traceback__))[-3000:]
+        if _raised_in_library(e):
+            # the exception escaped from cola itself (e.g. while the case was constructing its operators): that is a finding about the
+            # library, reported like any other violation, not a harness error
+            sigf = getattr(_MOD, "case_signature", digest)
+            res = {"transitions": 1, "outcome": "library-exception", "violations": [{
+                "key": f"{_MOD.PROPERTY}|uncaught-library-exception|{type(e).__name__}|{str(sigf(case))[:80]}",
+                "what": f"cola raised {type(e).__name__} outside any call the case guards: {str(e)[:160]}", "detail": {"traceback": tb[-1500:]}}]}
+        else:
+            res = {"transitions": 0, "outcome": "harness-error", "violations": [], "harness_error": tb}
     finally:
         signal.setitimer(signal.ITIMER_REAL, 0)
     res["case"] = case if seed == _SEED else {"__seed_offset__": seed - _SEED, "case": case}
